@@ -7,10 +7,10 @@ terminal callback exactly once per TERM node
 `freeTree` (`Yaep/Model/FreeTree.lean`) models the two passes of `yaep_free_tree` over the
 exported node table: `reduce` (= `free_tree_reduce`: mark, unlink references to marked nodes,
 decide which abstract node keeps its name) and `sweep` (= `free_tree_sweep`: free the
-remaining tree).  `freeTree_exactly_once` is the contract.  One deviation from the informal
-claim is visible in the model and in the C code alike: the "name seen" flag is the first
-character of the name, so the block of an *empty* abstract-node name is never released
-(`freeTree_leaks_empty_name`); with `noEmptyName` the contract holds for all blocks.
+remaining tree).  `freeTree_exactly_once` is the contract; it holds for all blocks: the
+"name seen" flag is a byte of its own after the terminating NUL of the name, so the block of
+an *empty* abstract-node name is kept by the first node that reaches it and released exactly
+once, like every other name (`freeTree_frees_empty_name`).
 -/
 namespace Yaep
 
@@ -78,12 +78,12 @@ theorem freeTree_exactly_once {tab : Array NodeRec} (hwf : tableWF tab = true) {
       constructor
       · intro h
         obtain ⟨h1, _⟩ := hlog.ownS _ h s rfl
-        rcases (hlog.seenIff s).1 h1 with h0 | ⟨hs, k, hk, _, c, ks, hc⟩
+        rcases (hlog.seenIff s).1 h1 with h0 | ⟨k, hk, _, c, ks, hc⟩
         · simp at h0
-        · exact ⟨hs, k, c, ks, (hvis k).1 hk, hc⟩
-      · rintro ⟨hs, k, c, ks, hk, hc⟩
+        · exact ⟨k, c, ks, (hvis k).1 hk, hc⟩
+      · rintro ⟨k, c, ks, hk, hc⟩
         apply hlog.allS s _ (by simp)
-        exact (hlog.seenIff s).2 (.inr ⟨hs, k, (hvis k).2 hk, by simp, c, ks, hc⟩)
+        exact (hlog.seenIff s).2 (.inr ⟨k, (hvis k).2 hk, by simp, c, ks, hc⟩)
   · intro k
     rw [mem_termCalls]
     constructor
@@ -99,27 +99,49 @@ theorem freeTree_exactly_once {tab : Array NodeRec} (hwf : tableWF tab = true) {
       apply hlog.allV k ((hvis k).2 h1) (by simp)
       simp [nodeEvents, hc]
 
-/-- when no abstract node has the empty name, exactly the blocks of the DAG are freed -/
-theorem freeTree_exactly_once_noEmptyName {tab : Array NodeRec} (hwf : tableWF tab = true)
-    (hne : noEmptyName tab = true) {root : Nat} (hr : root < tab.size) (b : Block) :
+/-- "exactly once" as a count: a block of the DAG occurs once in the list of freed blocks,
+every other block does not occur -/
+theorem freeTree_freed_count {tab : Array NodeRec} (hwf : tableWF tab = true) {root : Nat}
+    (hr : root < tab.size) (b : Block) :
+    (BlockLive tab root b → (freedBlocks (freeTree tab root)).count b = 1) ∧
+    (¬ BlockLive tab root b → (freedBlocks (freeTree tab root)).count b = 0) := by
+  obtain ⟨hnd, hmem, _, _⟩ := freeTree_exactly_once hwf hr
+  constructor
+  · intro h
+    rw [hnd.count, if_pos ((hmem b).2 h)]
+  · intro h
+    exact List.count_eq_zero.2 fun hb => h ((hmem b).1 hb)
+
+/-- exactly the blocks of the DAG are freed, whether or not an abstract node has the empty
+name -/
+theorem freeTree_exactly_once_blockOf {tab : Array NodeRec} (hwf : tableWF tab = true)
+    {root : Nat} (hr : root < tab.size) (b : Block) :
     b ∈ freedBlocks (freeTree tab root) ↔ BlockOf tab root b := by
   rw [(freeTree_exactly_once hwf hr).2.1 b]
   cases b with
   | node k => rfl
   | cell k p => rfl
-  | name s =>
-    simp only [BlockLive, BlockOf]
-    constructor
-    · exact fun h => h.2
-    · rintro ⟨k, c, ks, hk, hc⟩
-      exact ⟨noEmptyName_spec hne hc, k, c, ks, hk, hc⟩
+  | name s => rfl
 
-/-- the block of an empty abstract-node name is never released (a leak of one byte per rule
-with such a name; `yaep_read_grammar` does not reject the empty name) -/
-theorem freeTree_leaks_empty_name {tab : Array NodeRec} (hwf : tableWF tab = true) {root : Nat}
-    (hr : root < tab.size) : Block.name "" ∉ freedBlocks (freeTree tab root) := by
-  rw [(freeTree_exactly_once hwf hr).2.1]
-  simp [BlockLive]
+/-- the former form of `freeTree_exactly_once_blockOf`; the hypothesis `noEmptyName` is no
+longer needed -/
+theorem freeTree_exactly_once_noEmptyName {tab : Array NodeRec} (hwf : tableWF tab = true)
+    (_hne : noEmptyName tab = true) {root : Nat} (hr : root < tab.size) (b : Block) :
+    b ∈ freedBlocks (freeTree tab root) ↔ BlockOf tab root b :=
+  freeTree_exactly_once_blockOf hwf hr b
+
+/-- the block of an empty abstract-node name is released (exactly once) iff a reachable
+abstract node has the empty name; it used to leak (the statement of the former
+`freeTree_leaks_empty_name`, `Block.name "" ∉ freedBlocks (freeTree tab root)`, is false
+now) -/
+theorem freeTree_frees_empty_name {tab : Array NodeRec} (hwf : tableWF tab = true) {root : Nat}
+    (hr : root < tab.size) :
+    (Block.name "" ∈ freedBlocks (freeTree tab root) ↔
+      ∃ k c ks, Reach tab root k ∧ tab.getD k .bad = .anode "" c ks) ∧
+    ((∃ k c ks, Reach tab root k ∧ tab.getD k .bad = .anode "" c ks) →
+      (freedBlocks (freeTree tab root)).count (.name "") = 1) := by
+  refine ⟨(freeTree_exactly_once hwf hr).2.1 _, fun h => ?_⟩
+  exact (freeTree_freed_count hwf hr _).1 h
 
 /-- the callback of a TERM node comes before the node is freed -/
 theorem freeTree_termcb_then_free {tab : Array NodeRec} (hwf : tableWF tab = true) {root : Nat}
@@ -203,11 +225,35 @@ example : Block.node 1 ∈ freedBlocks (freeTree tab 5) :=
   freeTree_termcb_then_free (tab := tab) (by decide) (by decide) (by decide)
 example : freeTree tab 6 = [] := freeTree_null (by decide)
 
-/-- the empty name leaks -/
+example : Block.name "x" ∈ freedBlocks (freeTree tab 5) :=
+  (freeTree_exactly_once_blockOf (tab := tab) (by decide) (by decide) _).2
+    ⟨2, 1, [0], .step (c := 4) (by decide) (.step (c := 2) (by decide) (.refl 2)), rfl⟩
+example : (freedBlocks (freeTree tab 5)).count (.name "x") = 1 :=
+  (freeTree_freed_count (tab := tab) (by decide) (by decide) _).1
+    ⟨2, 1, [0], .step (c := 4) (by decide) (.step (c := 2) (by decide) (.refl 2)), rfl⟩
+example : (freedBlocks (freeTree tab 5)).count (.name "y") = 0 := by decide
+
+/-- the empty name is released like every other name -/
 example : noEmptyName tabE = false := by decide
-example : freeTree tabE 1 = [.termcb 0, .free (.node 0), .free (.node 1)] := by decide
-example : Block.name "" ∉ freedBlocks (freeTree tabE 1) :=
-  freeTree_leaks_empty_name (by decide) (by decide)
+example : freeTree tabE 1 =
+    [.free (.name ""), .termcb 0, .free (.node 0), .free (.node 1)] := by decide
+example : Block.name "" ∈ freedBlocks (freeTree tabE 1) :=
+  ((freeTree_frees_empty_name (tab := tabE) (by decide) (by decide)).1).2
+    ⟨1, 0, [0], .refl 1, rfl⟩
+example : (freedBlocks (freeTree tabE 1)).count (.name "") = 1 :=
+  (freeTree_frees_empty_name (tab := tabE) (by decide) (by decide)).2
+    ⟨1, 0, [0], .refl 1, rfl⟩
+/-- two abstract nodes with the empty name share one name block: it is freed exactly once
+(by the first of them that the walk reaches), the second node does not keep it -/
+example : tableWF tabE2 = true := by decide
+example : (freeTree tabE2 4).count (.free (.name "")) = 1 := by decide
+example : (freedBlocks (freeTree tabE2 4)).count (.name "") = 1 := by decide
+example : freeTree tabE2 4 =
+    [.free (.name "top"), .free (.name ""), .termcb 0, .free (.node 0), .free (.node 2),
+     .termcb 1, .free (.node 1), .free (.node 3), .free (.node 4)] := by decide
+example : (reduce tabE2 5 {} 4).2 =
+    .anode 4 (some "top") [.anode 2 (some "") [.leaf 0 true],
+      .anode 3 none [.leaf 1 true]] := by rfl
 
 example : traceOK [.alloc 1, .alloc 2, .free 1, .alloc 1, .free 2, .free 1] = true := by decide
 example : traceOK [.alloc 1, .free 1, .free 1] = false := by decide
